@@ -481,10 +481,11 @@ func (s *Store) instantiate(
 		s.setStarting(m, true)
 		_, err = ce.Call(ctx)
 		s.setStarting(m, false)
-		if err == nil {
-			// The store may have been closed meanwhile, which only marked this instance: it is released
-			// here, and the instantiation fails with the exit error.
-			err = m.FailIfClosed()
+		// The store may have been closed meanwhile, which only marked this instance: it is released
+		// here, and the instantiation fails with the exit error. The call may have failed by itself
+		// already: a start function that is imported belongs to another module, closed by then.
+		if closedErr := m.FailIfClosed(); err == nil {
+			err = closedErr
 		}
 		if exitErr, ok := err.(*sys.ExitError); ok { // Don't wrap an exit error!
 			return nil, exitErr
